@@ -128,7 +128,36 @@ def gen_jobs(ctx):
             c2[1] = (c2[1] + [F(2)] * 4)[:len(c2[0])]
             if len(set(zip(*c1))) > 1 and len(set(zip(*c2))) > 1:
                 jobs.append(("shim.all_intersections", [enc_arr(c1), enc_arr(c2)], "isect"))
+    jobs.extend(zoo_jobs())
     return jobs
+
+
+def zoo_jobs():
+    """the repository's own curve-curve cases (tests/functional/*.json): they include the pairs on which the pipeline raises
+    (Newton failure at a triple root, too many candidates): exception types must agree between the configurations"""
+    import json
+    import os
+    base = os.path.join(os.environ.get("BEZIER_REPO", "/repo"), "tests", "functional")
+    out = []
+    try:
+        curves = json.load(open(os.path.join(base, "curves.json")))
+        cases = json.load(open(os.path.join(base, "curve_intersections.json")))
+    except (OSError, ValueError):
+        return out
+
+    def num(x):
+        if isinstance(x, str) and x.startswith("0x") or isinstance(x, str) and "p" in x:
+            return F(float.fromhex(x))
+        return F(x)
+    for c in cases:
+        try:
+            n1 = [[num(v) for v in row] for row in curves[str(c["curve1"])]["control_points"]]
+            n2 = [[num(v) for v in row] for row in curves[str(c["curve2"])]["control_points"]]
+        except (KeyError, ValueError, TypeError):
+            continue
+        if all(F(float(v)) == v for r in n1 + n2 for v in r):
+            out.append(("shim.all_intersections", [enc_arr(n1), enc_arr(n2)], "isect"))
+    return out
 
 
 def flat(x, out):
@@ -201,9 +230,12 @@ def run(ctx):
     ctx.samples.append({"sweep": "cross_configuration", "case": {"op": jobs[0][0], "args": jobs[0][1]}})
     return finish(ctx, "PROVED here: equality of the twin constants regenerated from both languages, the wiggle default, the evaluation switch "
                   "literal, the declared type of the compiled binomial accumulator, and totality of the classification of the shim names "
-                  "enumerated from the AST of the six shim modules. The equivalence of each kernel pair is decided in the property named by "
+                  "enumerated from the AST of the six shim modules; the status-code -> exception map: one enum in status.h / _status.pxd / status.f90, "
+                  "the two `switch (status)` of the compiled _speedup.c implement the if-chains of _speedup.pyx, and every exception of a status "
+                  "has a raise statement with the same class and the same message text in the pure-Python modules (INSUFFICIENT_SPACE and UNKNOWN "
+                  "are compiled-only). The equivalence of each kernel pair is decided in the property named by "
                   "the classification (both configurations are corresponded with ONE Gallina model there). The cross-configuration sweep "
                   "here is support. Intersection pipelines, triangle-triangle intersection, locate and compute_length are compared on "
                   "discrete outcomes only",
-                  unproved=["status-code -> exception map of the Cython wrapper", "triangle_intersections / curve_intersections numerics",
+                  unproved=["that the Fortran code sets a status under the same conditions as the Python code raises (outcome sweeps)", "triangle_intersections / curve_intersections numerics",
                             "Fortran closed forms are not translated (correspondence only)"])
